@@ -68,6 +68,13 @@ impl Interp {
                 extra.push((k, v.to_string()));
             }
         }
+        if op == "q_dot" {
+            let arr = |k: &str| -> Vec<u64> { ev[k].as_array().map(|a| a.iter().map(|v| val_from_json(v).u()).collect()).unwrap_or_default() };
+            let (a, b) = (arr("as"), arr("bs"));
+            let k = a.len();
+            let lines = crate::la::dot_events(t, 1, k, 1, &a, &b);
+            return (lines.into_iter().next().unwrap_or_default(), None);
+        }
         if op == "poly" {
             let deg = ev["deg"].as_u64().unwrap_or(1) as u32;
             let parts = ev["parts"].as_u64().unwrap_or(0) as usize;
